@@ -65,21 +65,32 @@ func verifyCaveats(caveats []string, userID string) error {
 
 LoopCaveat:
 	for _, caveat := range caveats {
+		var bit uint8
+		ok := true
 		switch {
 		case caveat == Gen:
-			verified |= 1
+			bit = 1
 		case strings.HasPrefix(caveat, UserPrefix):
-			if caveat[len(UserPrefix):] == userID {
-				verified |= 2
-			}
+			bit = 2
+			ok = caveat[len(UserPrefix):] == userID
 		case strings.HasPrefix(caveat, TimePrefix):
-			if verifyExpiry(caveat[len(TimePrefix):], now) {
-				verified |= 4
-			}
+			bit = 4
+			ok = verifyExpiry(caveat[len(TimePrefix):], now)
 		default:
 			verified |= 8
 			break LoopCaveat
 		}
+		if !ok {
+			// every caveat must hold: one satisfied caveat of a kind does
+			// not make up for another of the same kind that fails
+			return errors.New("Caveat not satisfied")
+		}
+		if verified&bit != 0 {
+			// a repeated caveat is an extra caveat
+			verified |= 8
+			break LoopCaveat
+		}
+		verified |= bit
 	}
 	// Check that all three caveats are verified and no extra caveats
 	// i.e. Uvvv == 0111
